@@ -39,6 +39,10 @@ Safety ==
     /\ C08_Once(O(s)) /\ C08_OnePoly(O(s)) /\ C08_Consistent(O(s)) /\ C08_RepeatSeen(O(s))
     /\ s.pc = "done" => (s.db.outbox = <<>> /\ s.db.res = "full")
 
+(* "strictly speaking everything is stored in the database, what we have here is a cache": outside
+   a transaction the cached object is the stored one *)
+MemMatchesDb == (s.mem.alive /\ s.mem.synced /\ ~s.tx.on) => (s.mem.has = s.db.pure /\ (s.mem.has => s.mem.rec = s.db.rec))
+
 (* in the order they were queued: first occurrences are checkin, commit, eval, acc, apol, result *)
 Rank(k) == CASE k = "checkin" -> 1 [] k = "commit" -> 2 [] k = "eval" -> 3 [] k = "acc" -> 4 [] k = "apol" -> 5 [] k = "result" -> 6
 InOrder == LET d == Dedup(s.sent, <<>>) IN \A i, j \in DOMAIN d : i < j => Rank(d[i].k) < Rank(d[j].k)
@@ -50,6 +54,6 @@ Drains == [](s.db.outbox # <<>> => <>(s.db.outbox = <<>>))
 (* listed before Safety in the cfg: prints the crash points of a state that violates Safety *)
 EmitBad == Safety \/ PrintT(<<"BAD", ToJson([cr |-> cr])>>)
 EmitDone == (~Emit) \/ s.pc # "done" \/ PrintT(<<"B", ToJson([cr |-> cr])>>)
-ASSUME PrintT(<<"CONST", ToJson([others |-> Others, phaseLen |-> PhaseLen, accBlock |-> AccBlock, init |-> InitState])>>)
+ASSUME PrintT(<<"CONST", ToJson([others |-> Others, phaseLen |-> PhaseLen, dealBlock |-> DealBlock, accBlock |-> AccBlock, init |-> InitState])>>)
 
 =============================================================================
